@@ -293,6 +293,9 @@
 //     literal of a translated struct a call in a field of abstract type (which
 //     the structure does not have) is dropped silently when the callee is listed
 //     under "pure" or "ignore" (otherwise it is an error in traced functions);
+//   - `p == q` / `p != q` on two values of abstract pointer (interface, …) type,
+//     neither being nil, is an opaque Bool value `e<k>_…` (which object a pointer
+//     refers to is not modelled outside "symbolic" / "refs");
 //   - the statement `func() { … }()` (no parameters, no results) runs its body
 //     in place, with its own defers; a `return` inside ends the literal only.
 //
@@ -1542,6 +1545,10 @@ func (c *fctx) binary(x *ast.BinaryExpr) ex {
 				fail("nil comparison of %s", c.show(x.X))
 			}
 			return c.bindN([]ex{a}, func(s []string) string { return "(" + s[0] + ")." + m })
+		}
+		if c.t.valType(tx) == "AbsPtr" && c.t.leanType(tx) == "" && !c.t.symbolic && !c.t.refs {
+			// identity of two abstract objects (`p != q`) is not modelled: an opaque Bool
+			return c.opaqueValue(x)
 		}
 		a, b := c.expr(x.X), c.expr(x.Y)
 		neg := x.Op == token.NEQ
